@@ -214,6 +214,7 @@ def gate_stats(f, tau, var, test, admittance, add_c, add_l):
              amplification of "fit one part, predict the other" of the real and imaginary tests is included),
              S2 = diag(1/|X|) on both halves.
     kpar     the same bound for the contribution-weighted parameter error relative to the largest term.
+    kappan, kparn   kappa and kpar after scaling every column of M to unit norm (unknowns in their natural units)
     """
     f = np.asarray(f, dtype=float)
     var = np.asarray(var, dtype=float)
@@ -226,7 +227,7 @@ def gate_stats(f, tau, var, test, admittance, add_c, add_l):
     st = {"ratio": unk / eq, "perdec": float((len(tau) - 1) / max(1e-9, np.log10(tau[-1] / tau[0]))),
           "dyn": float(aX.max() / aX.min()) if aX.min() > 0 else np.inf, "cond": 1.0, "condn": 1.0, "kappa": 0.0, "kpar": 0.0}
     if not np.isfinite(st["dyn"]):
-        st.update(cond=np.inf, condn=np.inf, kappa=np.inf, kpar=np.inf)
+        st.update(cond=np.inf, condn=np.inf, kappa=np.inf, kpar=np.inf, kappan=np.inf, kparn=np.inf)
         return st
     Bmax = np.abs(B).max(axis=0)
     top = float((Bmax * np.abs(var)).max())
@@ -241,7 +242,7 @@ def gate_stats(f, tau, var, test, admittance, add_c, add_l):
             M, cc = A * rows[:, None], c * rows
         U, sv, Vt = np.linalg.svd(M, full_matrices=False)
         if not sv[-1] > 0:
-            st.update(cond=np.inf, condn=np.inf, kappa=np.inf, kpar=np.inf)
+            st.update(cond=np.inf, condn=np.inf, kappa=np.inf, kpar=np.inf, kappan=np.inf, kparn=np.inf)
             return st
         st["cond"] = max(st["cond"], float(sv[0] / sv[-1]))
         Mp = (Vt.T / sv) @ U.T
@@ -251,8 +252,15 @@ def gate_stats(f, tau, var, test, admittance, add_c, add_l):
         st["kpar"] += float(np.linalg.norm(Bmax[sl][:, None] * Mp, 2)) * load / top
         n = np.linalg.norm(M, axis=0)
         n[n == 0] = 1.0
-        svn = _svals(M / n)
+        Un, svn, Vtn = np.linalg.svd(M / n, full_matrices=False)
         st["condn"] = max(st["condn"], float(svn[0] / svn[-1]) if svn[-1] > 0 else np.inf)
+        if svn[-1] > 0:  # the same bounds in natural units of the unknowns (what a solver that scales its variables feels)
+            Mnp = (Vtn.T / svn) @ Un.T
+            loadn = float(svn[0] * np.linalg.norm(x * n) + np.linalg.norm(cc))
+            st["kappan"] = st.get("kappan", 0.0) + float(np.linalg.norm((Afull * s2[:, None] / n) @ Mnp, 2)) * loadn
+            st["kparn"] = st.get("kparn", 0.0) + float(np.linalg.norm((Bmax[sl] / n)[:, None] * Mnp, 2)) * loadn / top
+        else:
+            st["kappan"] = st["kparn"] = np.inf
     return st
 
 
